@@ -2142,7 +2142,15 @@ impl NullableInterval {
                         let rhs_values = rhs.values();
                         match (lhs_values, rhs_values) {
                             (Some(lhs_values), Some(rhs_values)) => {
-                                lhs_values.equal(rhs_values)?.not()?
+                                let ne = lhs_values.equal(rhs_values)?.not()?;
+                                if matches!(self, Self::MaybeNull { .. })
+                                    || matches!(rhs, Self::MaybeNull { .. })
+                                {
+                                    // NULL IS DISTINCT FROM <non-null> is true
+                                    ne.union(Interval::TRUE)?
+                                } else {
+                                    ne
+                                }
                             }
                             (Some(_), None) | (None, Some(_)) => Interval::TRUE,
                             (None, None) => unreachable!("Null case handled above"),
